@@ -1,4 +1,4 @@
-import CssVerif.Lemmas.SheetReparse
+import CssVerif.Lemmas.SheetNs
 /-!
 # C09 — a stylesheet stays structurally valid under any sequence of DOM edits
 
@@ -325,6 +325,51 @@ example :
     Valid st ∧ st.rules.length = 11 ∧ (st.rules.all fun r => r.roundTrips (nsUris st.rules)) = true ∧
       ((nsPairs st.rules).map (·.1)).Nodup ∧ ((nsPairs st.rules).map (·.2)).Nodup := by
   simp only [← validB_iff]; decide +kernel
+
+/-! ## T9.4 — the @namespace rules stay effective; T9.3 for reachable states -/
+
+/-- **T9.4** EVERY operation (no exclusion) leaves the @namespace rules of the sheet clean — prefixes pairwise
+distinct, URIs pairwise distinct, i.e. every @namespace rule effective: `_cleanNamespaces` does its job after
+`insertRule` / `add` / `namespaces[p] = u` (where it may refuse, and then the list is put back) and after a text
+replacement (where the same-prefix merging of the parser makes it impossible for the clean-up to refuse). -/
+theorem step_nsClean (st : St) (op : Op) (h : NsClean st.rules) : NsClean (step st op).1.rules := by
+  cases op with
+  | insert s i v => exact insertRule_nsClean st s i false v _ h
+  | add s v => exact insertRule_nsClean st s none true v _ h
+  | insertOrdered s i v => exact insertRule_nsClean st s (some i) true v _ h
+  | delete i => exact deleteRule_nsClean st i h
+  | setEncoding e v => exact setEncoding_nsClean st e v h
+  | setText specs => exact setText_nsClean st specs h
+  | nsSet p u => exact nsSet_nsClean st p u h
+  | nsDel p => exact nsDel_nsClean st p h
+  | nInsert path s i v => exact nsClean_of_pairs h (nInsert_nsPairs st path s i v)
+  | nDelete path i => exact nsClean_of_pairs h (nDelete_nsPairs st path i)
+  | nSetText path kids => exact nsClean_of_pairs h (nSetText_nsPairs st path kids)
+  | setMode b => exact h
+
+theorem reachable_nsClean (st : St) (ops : List Op) (h : NsClean st.rules) : NsClean (run st ops).rules := by
+  induction ops generalizing st with
+  | nil => exact h
+  | cons op ops ih => exact ih (step st op).1 (step_nsClean st op h)
+
+/-- a text replacement is refused as a whole (exception, state untouched) or accepted without any exception: the
+final `_cleanNamespaces` of an accepted text cannot raise -/
+theorem setText_all_or_nothing (st : St) (specs : List Spec) :
+    (∃ e, (step st (.setText specs)).2 = .err e ∧ (step st (.setText specs)).1 = st) ∨
+      (step st (.setText specs)).2 = .none :=
+  setText_outcome st specs
+
+/-- **T9.3 for reachable states** after ANY history from the empty sheet that stays outside the four regions that
+concern the tree, the sheet whose rules each round-trip on their own is reparsed without loss: the structural
+hypotheses of T9.3 (`ValidTree`, `NsClean`) are invariants, not assumptions. -/
+theorem reparse_after_history (raising : Bool) (ops : List Op) (hc : CleanTree (St.empty raising) ops)
+    (hrt : ∀ r ∈ (run (St.empty raising) ops).rules,
+      r.roundTrips (nsUris (run (St.empty raising) ops).rules) = true) :
+    Rule.shapes (reparse (run (St.empty raising) ops)).rules = Rule.shapes (run (St.empty raising) ops).rules := by
+  have hv : ValidTree (St.empty raising) := by
+    refine ⟨topOK_nil, ?_, ?_, ?_⟩ <;> intro r hr <;> cases hr
+  have hn : NsClean (St.empty raising).rules := by simp [St.empty, NsClean, nsPairs]
+  exact reparse_keeps_all _ (reachable_tree_partial _ ops hv hc) (reachable_nsClean _ ops hn) hrt
 
 /-- non-vacuity of T9.1 / T9.2: a history of fourteen operations of all families (object and string arguments,
 refused and accepted ones, nested lists, text replace on the empty sheet, namespaces, encoding) lies outside every
